@@ -65,21 +65,30 @@ func verifyCaveats(caveats []string, userID string) error {
 
 LoopCaveat:
 	for _, caveat := range caveats {
+		// Every caveat must hold and each kind may appear only once: a caveat
+		// appended by the holder must never widen what the token allows.
+		var kind uint8
 		switch {
 		case caveat == Gen:
-			verified |= 1
+			kind = 1
 		case strings.HasPrefix(caveat, UserPrefix):
-			if caveat[len(UserPrefix):] == userID {
-				verified |= 2
+			if caveat[len(UserPrefix):] != userID {
+				return errors.New("Token was issued for another user")
 			}
+			kind = 2
 		case strings.HasPrefix(caveat, TimePrefix):
-			if verifyExpiry(caveat[len(TimePrefix):], now) {
-				verified |= 4
+			if !verifyExpiry(caveat[len(TimePrefix):], now) {
+				return errors.New("Token has expired")
 			}
+			kind = 4
 		default:
 			verified |= 8
 			break LoopCaveat
 		}
+		if verified&kind != 0 {
+			return errors.New("Duplicate caveat present")
+		}
+		verified |= kind
 	}
 	// Check that all three caveats are verified and no extra caveats
 	// i.e. Uvvv == 0111
